@@ -49,7 +49,7 @@ fn c07_ep_capturers() {
 }
 
 /// safety-only: make-move on any ACCEPTED position (back-rank pawns allowed) with any pseudo-legal move:
-/// piece_of_unchecked finds a piece, king_sq finds the enemy king, clocks do not overflow below 65535,
+/// piece_of_unchecked finds a piece, king_sq finds the enemy king, the clocks never overflow (any 16-bit value),
 /// Board::xor is called with at most two squares, no index out of range
 #[kani::proof]
 #[kani::unwind(9)]
@@ -64,7 +64,7 @@ fn c07_make_move_safety() {
     let b = any_board();
     let p = view(&b);
     kani::assume(r::one_king_each(&p) && r::at_most_16(&p) && r::rights_ok(&p) && r::ep_ok(&p));
-    kani::assume(p.half < 65535 && p.full < 65535);
+    // clocks are NOT restricted: every 16-bit value is accepted by the builder
     let mv: ChessMove = any_move();
     kani::assume(r::pattern_ok(&p, mv_of(mv)));
     // a pawn standing on its own last rank cannot move at all, one on its first rank moves like any pawn
